@@ -326,12 +326,12 @@ def _thread(F, nd, call_bi, boff, nblocks, off, dest, cont):
     def explore(j, chain, depth):
         for p_ in preds_of(j):
             pt_ = blocks[p_]["term"]
-            if pt_["k"] not in ("goto", "call"):
+            if pt_["k"] not in ("goto", "call", "drop"):
                 continue
             val = _known_value(F, blocks, p_, ret_local)
             if val is not None:
                 found.append((p_, val, chain))
-            elif not writes_ret(p_) and pt_["k"] == "goto" and depth < 4:
+            elif not writes_ret(p_) and pt_["k"] in ("goto", "drop") and depth < 4:
                 explore(p_, [p_] + chain, depth + 1)
     for R in rets:
         if writes_ret(R):
@@ -345,7 +345,10 @@ def _thread(F, nd, call_bi, boff, nblocks, off, dest, cont):
         t2["term"] = {"k": "goto", "to": arm_for(val), "threaded": val}
         base = len(blocks)
         for i, c in enumerate(clones):
-            c["term"] = {"k": "goto", "to": base + i + 1}
+            if c["term"]["k"] == "drop":
+                c["term"]["to"] = base + i + 1      # the drop of a helper's local stays on the duplicated path
+            else:
+                c["term"] = {"k": "goto", "to": base + i + 1}
             blocks.append(c)
         blocks.append(t2)
         blocks[p_]["term"]["to"] = base
